@@ -188,7 +188,9 @@ def trim_rule(ctx, crate, b):
         for h, blocks in b.loops().items():
             if rb in blocks and (loop is None or len(blocks) < len(loop[1])):
                 loop = (h, blocks)
-        ends = set(b.exits()) | ({loop[0]} if loop else set())
+        # inside a loop: the way to the next round (the splice lies on it); an early return on a fault that cannot
+        # be the command's doing (the constant pattern not compiling) is not a splice of nothing
+        ends = {loop[0]} if loop else set(b.exits())
         ok = bool(uses) and flow.must_pass(b, b.succs[rb][0], uses, ends)
         ctx.ob("R11-5", b.path, "the captured stdout is read on every path after the command ran (whatever its status)", ok,
                key="R11-5|%s|stdout-always-read#%d" % (b.path, k), where=b.loc(rb), crate=crate.kind,
@@ -198,21 +200,33 @@ def trim_rule(ctx, crate, b):
 
 
 def stutter_rule(ctx, crate):
-    b = crate.fn(SITES[0])
-    if b is None:
-        return
-    found = False
-    for h, blocks in sorted(b.loops().items()):
-        exits = [(x, y) for x in sorted(blocks) for y in b.succs[x] if y not in blocks]
-        if any(atom[0] == "discr" and val == "None" and atom[1][0] == "call" and last_seg(atom[1][1]) == "next"
-               for x, y in exits for tgt, atom, val in b.switch_edges(x) if tgt == y):
+    """never a hang: in both substitution passes every loop that is not driven by an iterator changes, on every cycle
+    path, something its exit tests read (the progress analysis of C05 R05-2, with the same audited exemptions)"""
+    for i, site in enumerate(SITES):
+        b = crate.fn(site)
+        if b is None:
             continue
-        found = True
-        ok, detail, n = c05.stutter_free(b, h, blocks, exits)
-        ctx.paths_enumerated += n
-        ctx.ob("R11-3", b.path, "the `$(` rewrite loop changes the line on every cycle path", ok,
-               key="R11-3|%s|stutter" % b.path, where=b.loc(h), crate=crate.kind, detail=detail)
-    ctx.require(found, "R11-3", "R11-3|%s|loop" % b.path, "no rewrite loop found", b.path)
+        found = False
+        for h, blocks in sorted(b.loops().items()):
+            exits = [(x, y) for x in sorted(blocks) for y in b.succs[x] if y not in blocks]
+            if any(atom[0] == "discr" and val == "None" and atom[1][0] == "call" and last_seg(atom[1][1]) in ("next", "next_back")
+                   for x, y in exits for tgt, atom, val in b.switch_edges(x) if tgt == y):
+                continue
+            found = True
+            allow = None
+            if i > 0:
+                ent = c05.LOOP_TABLE.get((b.path, c05.loop_desc(b, h, blocks, exits)))
+                if ent is not None and ent[1] == "exempt":
+                    continue
+                allow = c05.ALLOW.get(ent[1]) if ent is not None else None
+            ok, detail, n = c05.stutter_free(b, h, blocks, exits, allow=allow) if allow is not None else \
+                c05.stutter_free(b, h, blocks, exits)
+            ctx.paths_enumerated += n
+            what = "the `$(` rewrite loop changes the line on every cycle path" if i == 0 else \
+                "the backquote rewrite loop changes its token on every cycle path (also after a command that cannot be parsed)"
+            ctx.ob("R11-3", b.path, what, ok, key="R11-3|%s|stutter" % b.path, where=b.loc(h), crate=crate.kind, detail=detail)
+        if i == 0:
+            ctx.require(found, "R11-3", "R11-3|%s|loop" % b.path, "no rewrite loop found", b.path)
 
 
 def surrounding_rule(ctx, crate):
